@@ -326,15 +326,33 @@ func ruleC01OldKeysAddressable(c *Ctx) {
 	}
 	c.FuncsAnalysed[shortName(rd)] = true
 	c.FuncsAnalysed[shortName(ck)] = true
-	good := false
-	allInstrs(rd, func(i ssa.Instruction) {
-		if staticCallee(i) == ck {
-			cc := callOf(i)
-			if strings.HasSuffix(accessPath(cc.Args[0]), "P:meta.ID") && strings.HasSuffix(accessPath(cc.Args[1]), "P:meta.Created") {
-				good = true
-			}
+	// in read itself, or in a helper that read hands its meta parameter to
+	var usesBoth func(f *ssa.Function, metaIdx, depth int) bool
+	usesBoth = func(f *ssa.Function, metaIdx, depth int) bool {
+		if f == nil || f.Blocks == nil || metaIdx >= len(f.Params) || depth > 2 {
+			return false
 		}
-	})
+		mp := "P:" + f.Params[metaIdx].Name()
+		hit := false
+		allInstrs(f, func(i ssa.Instruction) {
+			if staticCallee(i) == ck {
+				cc := callOf(i)
+				if strings.HasSuffix(accessPath(cc.Args[0]), mp+".ID") && strings.HasSuffix(accessPath(cc.Args[1]), mp+".Created") {
+					hit = true
+				}
+				return
+			}
+			if h := staticCallee(i); h != nil && h.Pkg != nil && h.Pkg.Pkg.Path() == pkgApp && h != f {
+				for k, a := range callOf(i).Args {
+					if accessPath(a) == mp && usesBoth(h, k, depth+1) {
+						hit = true
+					}
+				}
+			}
+		})
+		return hit
+	}
+	good := usesBoth(rd, 1, 0)
 	c.check(good, shortName(rd)+"/cache-key", u.pos(rd.Pos()), "cacheKey(meta.ID, meta.Created)", "a specific key version is no longer looked up under (ID, Created): older keys referenced by existing records cannot be found once a newer one is cached")
 	// cacheKey uses both parameters in its result
 	uses := [2]bool{}
